@@ -41,8 +41,12 @@ def _verif_probe(inp, tinp=None, zinp=None, lat=None, lon=None, tag=0):
     return np.ma.ones(np.asarray(inp).size, dtype="uint8")
 
 
+RAISER_CLASSES = [RuntimeError, IndexError, AssertionError, KeyError, ZeroDivisionError, AttributeError, OverflowError]
+
+
 def _verif_raiser(inp, tag=0):
-    raise RuntimeError("probe test that raises while evaluating the data")
+    """A callee that raises while evaluating the data; the exception class varies with `tag`."""
+    raise RAISER_CLASSES[int(tag) % len(RAISER_CLASSES)]("probe test that raises while evaluating the data")
 
 
 def install_probes():
